@@ -28,7 +28,7 @@ Lemma slice_mid_22 body : slice_mid 2 2 ("%(" ++ body ++ ")s") = body.
 Proof.
   unfold slice_mid. change ("%(" ++ body ++ ")s")%string with (String "%" (String "(" (body ++ ")s"))).
   cbn [String.length substring Nat.sub]. rewrite slength_app. cbn [String.length].
-  replace (String.length body + 2 - 2) with (String.length body) by lia. apply substring_prefix.
+  match goal with |- substring 0 ?n _ = _ => replace n with (String.length body) by lia end. apply substring_prefix.
 Qed.
 
 Lemma key_named n : param_key Named (ph_text Named n) = ("param" ++ nat_to_string (S n))%string.
@@ -81,6 +81,11 @@ Proof.
     + eapply IH; eassumption.
 Qed.
 
+Lemma nth_error_seq len : forall s n, n < len -> nth_error (seq s len) n = Some (s + n).
+Proof.
+  induction len; intros s n H; [lia|]. destruct n; cbn; [f_equal; lia|]. rewrite IHlen by lia. f_equal. lia.
+Qed.
+
 Section Facts.
 Variable isf : string -> bool.
 Variable sty : style.
@@ -95,8 +100,11 @@ Proof.
 Qed.
 Lemma put_fresh st l : fresh_keys sty st -> put st l = st ++ [(key_at sty (List.length st), coll isf l)].
 Proof.
-  intros F. unfold ParamSim.put, collect, key_at. destruct (is_dict sty) eqn:D; [|reflexivity].
-  apply dict_set_fresh. rewrite F. pose proof (key_at_not_in (List.length st) D) as N. unfold key_at in N. rewrite D in N. exact N.
+  intros F. unfold ParamSim.put, collect. destruct (is_dict sty) eqn:D.
+  - assert (K : param_key sty (ph_text sty (List.length st)) = key_at sty (List.length st))
+      by (unfold key_at; rewrite D; reflexivity).
+    rewrite K. apply dict_set_fresh. rewrite F. apply key_at_not_in, D.
+  - unfold key_at. rewrite D. reflexivity.
 Qed.
 Lemma fresh_snoc st v : fresh_keys sty st -> fresh_keys sty (st ++ [(key_at sty (List.length st), v)]).
 Proof.
@@ -136,11 +144,7 @@ Proof.
   assert (K : k = key_at sty n).
   { assert (Hn : n < List.length stF) by (apply nth_error_Some; congruence).
     pose proof (map_nth_error fst n stF H) as M. rewrite F in M. cbn [fst] in M.
-    rewrite (map_nth_error (key_at sty) n (seq 0 (List.length stF)) (d := n)) in M.
-    - congruence.
-    - rewrite <- (Nat.add_0_l n) at 2. apply nth_error_nth' with (d := 0) in Hn as _.
-      clear M. generalize (seq_nth (List.length stF) 0 n 0 Hn). intros S0.
-      rewrite (nth_error_nth' (seq 0 (List.length stF)) 0); [rewrite S0; reflexivity|rewrite seq_length; exact Hn]. }
+    rewrite (map_nth_error (key_at sty) n _ (nth_error_seq _ 0 n Hn)) in M. cbn in M. congruence. }
   subst k. unfold key_at in H. rewrite D in H.
   eapply assoc_nth; [apply fresh_nodup; assumption|exact H].
 Qed.
@@ -223,7 +227,7 @@ Theorem items_outcome isf chk sty items : forallb (item_ok chk) items = true ->
 Proof.
   intros H. pose proof (items_sim isf sty chk items [] [] H) as R. unfold relS in R. unfold outcome_rel.
   destruct (render_items isf None items []) as [[ti s0]|e], (render_items isf (Some sty) items []) as [[tp st']|e']; try contradiction; [|exact R].
-  destruct R as [_ S]. repeat split.
+  destruct R as [_ S]. split; [|split].
   - apply (sim_bookkeeping isf sty chk [] st' tp ti S). reflexivity.
   - apply (sim_aligned isf sty chk [] st' tp ti S (fresh_nil sty) st').
     + destruct (sim_shape isf sty chk _ _ _ _ S (fresh_nil sty)) as [F _]. exact F.
